@@ -58,16 +58,19 @@ SEPS = {
 def plan(tier, seed):
     if tier == 'quick':
         return [{'kind': 'split', 'count': 450, 'name': 'split%d' % k} for k in range(8)] + \
-               [{'kind': 'keyval', 'count': 1500, 'name': 'kv%d' % k} for k in range(4)]
+               [{'kind': 'keyval', 'count': 1500, 'name': 'kv%d' % k} for k in range(4)] + \
+               [{'kind': 'arginfo', 'count': 2500, 'name': 'arginfo%d' % k} for k in range(2)]
     return [{'kind': 'split', 'count': 6000, 'name': 'split%d' % k} for k in range(16)] + \
-           [{'kind': 'keyval', 'count': 20000, 'name': 'kv%d' % k} for k in range(8)]
+           [{'kind': 'keyval', 'count': 20000, 'name': 'kv%d' % k} for k in range(8)] + \
+           [{'kind': 'arginfo', 'count': 40000, 'name': 'arginfo%d' % k} for k in range(4)]
 
 
 def floors(tier):
     return {'evaluations': 20000, 'distinct_nontrivial': 3000, 'splits_checked': 50000, 'keyval_checked': 8000,
             'histkeys:sep': 6, 'hist:policy:first': 500, 'hist:policy:concatenate': 500, 'hist:policy:error': 500,
             'hist:policy:last': 500, 'repeated_keys_seen': 1000,
-            'lists_with_none_entries': 2000}
+            'lists_with_none_entries': 2000, 'argument_info_checked': 4000,
+            'double_group_same_delimiters': 200, 'double_group_other_delimiters': 200}
 
 
 def setup(rec):
@@ -327,7 +330,91 @@ def check_keyval(s, nl, policy, extract, rec):
     return None
 
 
+_OPTSCTX = []
+
+
+def opts_context():
+    if not _OPTSCTX:
+        from pylatexenc.macrospec import LatexContextDb, MacroSpec, EnvironmentSpec
+        from pylatexenc.latexnodes import LatexArgumentSpec
+        db = LatexContextDb()
+        db.add_context_category('c', macros=[
+            MacroSpec('opts', [LatexArgumentSpec('[', argname='options'), LatexArgumentSpec('{', argname='main')]),
+            MacroSpec('textbf', '{'), MacroSpec('alpha', ''), MacroSpec('frac', '{{')])
+        db.set_unknown_macro_spec(MacroSpec(''))
+        _OPTSCTX.append(db)
+    return _OPTSCTX[0]
+
+
+def check_arginfo(case, rec):
+    """ParsedArgumentsInfo / SingleParsedArgumentInfo: the documented content of an argument, and key-value /
+    splitting through that entry point agreeing with the node-list methods on that content."""
+    from pylatexenc.latexnodes import ParsedArgumentsInfo
+    s = case['s']
+    try:
+        nl = parse(s, ctx=opts_context(), tolerant=False)
+    except Exception:
+        rec.monitor('unparsable_content')
+        return None
+    for n in canon.walk(nl):
+        if canon.kind(n) != 'macro' or n.macroname != 'opts' or n.nodeargd is None:
+            continue
+        info = ParsedArgumentsInfo(node=n)
+        for k, key in ((0, 'options'), (1, 'main')):
+            rec.monitor('argument_info_checked')
+            a = n.nodeargd.argnlist[k]
+            for getter in (k, key):
+                ai = info.get_argument_info(getter)
+                if ai.was_provided() != (a is not None):
+                    return 'was_provided() is %r for argument %r (node %s)' % (ai.was_provided(), getter, canon.short(a))
+                for unwrap in (True, False):
+                    got = list(ai.get_content_nodelist(unwrap_double_group=unwrap))
+                    # documented rule
+                    if a is None:
+                        want = [None]
+                    elif a.isNodeType(N.LatexGroupNode):
+                        want = list(a.nodelist)
+                        if unwrap and len(want) == 1 and want[0] is not None and want[0].isNodeType(N.LatexGroupNode):
+                            if want[0].delimiters[0] != a.delimiters[0]:
+                                rec.monitor('double_group_other_delimiters')
+                                want = list(want[0].nodelist)
+                            else:
+                                rec.monitor('double_group_same_delimiters')
+                    else:
+                        want = [a]
+                    if len(got) != len(want) or any(x is not y for x, y in zip(got, want)):
+                        return ('get_content_nodelist(unwrap_double_group=%r) of argument %r gives %s, the documented '
+                                'content is %s' % (unwrap, getter, canon.short(got), canon.short(want)))
+            ai = info.get_argument_info(k)
+            if a is not None:
+                content = ai.get_content_nodelist()
+                # key-value parsing through the argument info == key-value parsing of that content
+                try:
+                    kv1 = ai.parse_content_as_keyval()
+                    r1 = [(kk, vv.latex_verbatim()) for kk, vv in kv1.items()]
+                except Exception as e:
+                    r1 = ('exc', type(e).__name__)
+                try:
+                    kv2 = content.parse_keyval_content()
+                    r2 = [(kk, vv.latex_verbatim()) for kk, vv in kv2.items()]
+                except Exception as e:
+                    r2 = ('exc', type(e).__name__)
+                if r1 != r2:
+                    return 'parse_content_as_keyval() gives %r, parse_keyval_content() of the argument content gives %r' % (r1, r2)
+                want_kv = model_keyval(s, content, 'concatenate', True) if isinstance(content, N.LatexNodeList) else None
+                if want_kv not in (None, 'ERROR') and not isinstance(r1, tuple):
+                    exp = [(kk, ''.join(p or '' for p in pieces)) for kk, pieces in want_kv]
+                    if exp != r1:
+                        return 'key-values of argument %r are %r, the model gives %r' % (k, r1, exp)
+    return None
+
+
 def check_case(case, rec):
+    if case.get('what') == 'arginfo':
+        err = check_arginfo(case, rec)
+        if err:
+            rec.violation(case, '%s | source %r' % (err, case['s']), mech='arginfo:' + err.split(' ')[0][:30])
+        return
     s = case['s']
     try:
         nl = parse(s, tolerant=False)
@@ -399,6 +486,20 @@ def run_shard(desc, rec):
                 for ms in (None, 0, 1, 3):
                     rec.case()
                     check_case({'s': s, 'what': 'split_node', 'max_split': ms, 'keep_separators': ks}, rec)
+    elif desc['kind'] == 'arginfo':
+        contents = ['a=1,b=2', '{a=1,b=2}', '{[}', '[x]', 'k', '', ' a = 1 ', '{a}{b}', '\\textbf{a,b}', '{{a,b}}', 'a,{b,c},d',
+                    '{a=1},b={2}', '{a=1,b=2}c', '\\alpha', '{(a,b)}', 'x={y=z}']
+        for i in range(desc['count']):
+            opt = rng.choice(contents + [None, None])
+            main = rng.choice(contents)
+            s = rng.choice(['', 'pre ']) + '\\opts' + ('' if opt is None else '[' + opt + ']') + '{' + main + '}' + rng.choice(['', ' post'])
+            if opt is not None and '[x]' in opt:
+                s = s.replace('[[x]]', '[{[x]}]')
+            rec.case()
+            rec.nontrivial(('arginfo', s))
+            if i % 400 == 0:
+                rec.sample(s)
+            check_case({'what': 'arginfo', 's': s}, rec)
     else:
         vals = ['1', 'x y', '{a,b}', '{x=y}', '\\textbf{c,d}', '$e,f$', '', ' 2 ', '{p}q', 'u=v', '{ {w} }', '\\alpha', '%c,\n3']
         for i in range(desc['count']):
